@@ -14,7 +14,7 @@ ANCHORS = ['numdifftools.fornberg:Taylor.__call__', 'numdifftools.fornberg:Taylo
            'numdifftools.fornberg:_get_best_taylor_coefficients', 'numdifftools.fornberg:_extrapolate',
            'numdifftools.fornberg:_num_taylor_coefficients', 'numdifftools.fornberg:derivative',
            'numdifftools.fornberg:_poor_convergence', 'numdifftools.fornberg:_check_fft']
-MIN_COUNTERS = dict(quick={'length_asserted': 1500, 'coefficients_asserted': 8000, 'derivative_scaling_asserted': 300,
+MIN_COUNTERS = dict(quick={'expansions_with_initial_radius_beyond_a_close_pole': 40, 'length_asserted': 1500, 'coefficients_asserted': 8000, 'derivative_scaling_asserted': 300,
                            'default_radius_status_asserted': 300, 'failed_flag_asserted': 1500},
                     thorough={'coefficients_asserted': 300000})
 RULE = ('3 % nested expansions: the expanded function computes d/dw f(z + w) with derivative() element by element. ' 
@@ -136,6 +136,18 @@ def cases(rng, tier, shard, nshards):
                        r=None, step_ratio=None, num_extrap=None, max_iter=int(rng.choice([40, 50, 60])),
                        via=str(rng.choice(['taylor', 'derivative', 'Taylor'])))
             continue
+        if rng.random() < 0.06:
+            # a pole close to z0 (0.02 .. 0.06 away) and an initial radius 8 .. 32 times that distance: the first circles enclose the
+            # pole and hold nothing of the expansion; the search has to come back inside and the estimates of those first circles
+            # must not be selected for any coefficient (they span 20+ decades for n >= 13)
+            dist = float(np.round(10.0 ** rng.uniform(-1.7, -1.22), 4))
+            ang = float(rng.uniform(0, 2 * np.pi)) if z0[1] else float(rng.choice([0.0, np.pi]))
+            bc = complex(z0[0], z0[1]) + dist * complex(np.cos(ang), np.sin(ang))
+            bt = ('add', ('c', float(bc.real)), ('ci', float(bc.imag))) if z0[1] else ('c', float(bc.real))
+            yield dict(family='inv_close', tree=('div', ('c', 1.0), ('sub', bt, ('x',))), singularity=[float(bc.real), float(bc.imag) if z0[1] else 0.0],
+                       z0=z0, n=int(rng.integers(13, 28)), r=float(min(dist * rng.uniform(8, 32), 1.0)), step_ratio=None, num_extrap=None,
+                       via=str(rng.choice(['taylor', 'derivative', 'Taylor'])))
+            continue
         if not default_r and rng.random() < 0.2:
             # an initial radius already close to where the search settles, with the shortest extrapolation: the search ends after
             # the minimum number of circles (few rows reach the final selection)
@@ -229,6 +241,7 @@ def run_case(case, ctx):
     kw = dict(full_output=True)
     if case['r'] is not None:
         kw.update(r=case['r'], step_ratio=case['step_ratio'], num_extrap=case['num_extrap'])
+        kw = {k_: v_ for k_, v_ in kw.items() if v_ is not None}
     elif (case['n'] + int(abs(case['z0'][0]) * 1000)) % 5 == 0 and not case.get('max_iter'):
         # every default but the growth ratio, given as an integer (Python int or numpy integer): 2 and 3 are ratios like 2.0 and 3.0
         kw['step_ratio'] = [2, 3, np.int64(2), np.int32(3)][(case['n'] + int(abs(case['z0'][0]) * 100)) % 4]
@@ -250,7 +263,7 @@ def run_case(case, ctx):
                         pass
                     _T.clear()
                 coefs, info = tobj(z0_given)
-            elif case['r'] is not None and not case.get('max_iter') and (case['n'] + int(abs(case['z0'][0]) * 10)) % 3 == 0:
+            elif case['r'] is not None and case['step_ratio'] is not None and not case.get('max_iter') and (case['n'] + int(abs(case['z0'][0]) * 10)) % 3 == 0:
                 # the documented signature taylor(fun, z0, n, r, num_extrap, step_ratio) used positionally
                 ctx.count('taylor_arguments_given_positionally')
                 coefs, info = fb.taylor(f, z0_given, n_given, case['r'], case['num_extrap'], case['step_ratio'], full_output=True)
@@ -329,6 +342,11 @@ def run_case(case, ctx):
     if not np.isfinite(fmax):
         ctx.count('skipped_nonfinite_on_final_circle')
         return
+    sing_ = case.get('singularity')
+    if isinstance(sing_, (list, tuple)):
+        sing_ = complex(sing_[0], sing_[1])
+    if case['family'] == 'inv_close':
+        ctx.count('expansions_with_initial_radius_beyond_a_close_pole')
     worst, at = 0.0, None
     for k in range(0, n + 1):
         ex = complex(exact[k])
@@ -337,7 +355,7 @@ def run_case(case, ctx):
         ctx.count('coefficients_asserted')
         r = e / bound if bound > 0 else (0.0 if e == 0 else math.inf)
         vanished = abs(complex(coefs[k])) <= 1e-6 * abs(ex) and err[k] <= 1e-3 * abs(ex)
-        crossing = case.get('singularity') is not None and max(rs) >= abs(case['singularity'] - z0)
+        crossing = sing_ is not None and max(rs) >= abs(sing_ - z0)
         if not vanished and not crossing and fmax > 0:
             kb = 'k<8' if k < 8 else 'k<16' if k < 16 else 'k<32' if k < 32 else 'k<64' if k < 64 else 'k>=64'
             ctx.maximum('(err - K*reported)/(eps*fmax/R^k):' + kb, max(e - K_EST * err[k], 0.0) / (EPS * fmax / R ** k),
@@ -350,8 +368,8 @@ def run_case(case, ctx):
         ctx.reject('coefficient_outside_reported_error', observed=at['observed'], expected=at['expected'],
                    detail=dict(at, R=R, fmax=fmax, program=X.to_str(tree), iterations=int(info.iterations)),
                    family=case['family'], n=n, k=kk, coefficient_is_exactly_zero=bool(coefs[kk] == 0),
-                   radius_search_went_beyond_nearest_singularity=bool(
-                       case.get('singularity') is not None and max(rs) >= abs(case['singularity'] - z0)),
+                   radius_search_went_beyond_nearest_singularity=bool(sing_ is not None and max(rs) >= abs(sing_ - z0)),
+                   initial_radius_beyond_nearest_singularity=bool(sing_ is not None and rs[0] >= abs(sing_ - z0)),
                    reported_error_is_zero=bool(err[kk] == 0), k_is_power_of_two=bool(kk >= 8 and (kk & (kk - 1)) == 0),
                    coefficient_vanished=bool(abs(complex(coefs[kk])) <= 1e-6 * abs(at['expected'])
                                              and err[kk] <= 1e-1 * abs(at['expected'])),
@@ -366,6 +384,10 @@ def run_case(case, ctx):
 
 def classify(wit):
     f = wit.get('facts') or {}
+    if f.get('initial_radius_beyond_nearest_singularity') and f.get('coefficient_vanished'):
+        # not the listed mechanism: the early radii are not small (their bins hold garbage of the size of f, not zeros); a coefficient
+        # that vanished here was taken from a circle that encloses the singularity
+        return None
     if wit.get('check') == 'coefficient_outside_reported_error' and f.get('coefficient_vanished'):
         return 'fft-bin-exact-zero-on-early-radii'
     if wit.get('check') == 'coefficient_outside_reported_error' and f.get('radius_search_went_beyond_nearest_singularity'):
